@@ -242,6 +242,12 @@ class Region:
             self._cache[e] = float((W * X[:, 0] ** e[0] * X[:, 1] ** e[1] * X[:, 2] ** e[2]).sum())
         return self._cache[e]
 
+    def abs_mono(self, e) -> float:
+        """integral of |x^e0 y^e1 z^e2| over the pieces up to quadrature error: the natural scale of a resultant."""
+        e = tuple(int(k) for k in e)
+        X, W = self._rule()
+        return float((np.abs(W) * np.abs(X[:, 0] ** e[0] * X[:, 1] ** e[1] * X[:, 2] ** e[2])).sum())
+
     def measure(self):
         return self.mono((0, 0, 0))
 
